@@ -22,7 +22,13 @@ def bundles():
     base = [hp.pick_axiom(), hp.empty_rel_axiom()] + hp.isend_axioms()
     ctl = fm.syntax_axioms() + cc.rng_axioms() + fm.semantic_axioms(V, lambda s, d: E[s, d], lambda s: Lab[s])
     sem = fs.axioms() + fs.induction_hypothesis() + fs.lnot_contract_facts() + fs.path_state_axioms(V)
-    return {'heap_helpers': base, 'ctl_semantics': base + ctl, 'path_semantics': base + sem}
+    f = z3.Const('f!audit', hp.F)
+    Ep = z3.Const('Ephi!audit', hp.Rel)
+    eg = [cl for _, cl in cc.eg_trusted(f, lambda s, d: z3.And(V[s], E[s, d]), Ep)] + [fm.wfS(f), fm.is_tag(f, 'E'), fm.is_tag(fm.kid0(f), 'G'),
+                                                                                          # some state satisfies E G phi (gives e-matching ground terms to work from)
+                                                                                          fm.sat(f)[z3.Const('s!audit', hp.H)]]
+    return {'heap_helpers': base, 'ctl_semantics': base + ctl, 'path_semantics': base + sem,
+            'closure_and_EG_lemmas': base + ctl + eg}
 
 
 def run_one(arg):
@@ -43,7 +49,7 @@ def run_one(arg):
 
 
 def run(ctx, timeout_ms=10000):
-    res = ctx.pmap(run_one, [(n, timeout_ms) for n in ('heap_helpers', 'ctl_semantics', 'path_semantics')], chunksize=1)
+    res = ctx.pmap(run_one, [(n, timeout_ms) for n in ('heap_helpers', 'ctl_semantics', 'path_semantics', 'closure_and_EG_lemmas')], chunksize=1)
     flat = [x for r in res for x in r]
     bad = [x for x in flat if x[2] == 'unsat']
     ctx.notes.append('axiom audit (must not be refutable): ' + '; '.join('%s/%s=%s(%.1fs)' % x for x in flat))
